@@ -5,6 +5,7 @@ import CalVerif.Spec.PasswordSpec
 
     `ooxml <hex file>`                         → `<tag>`                 `ooxmlCheck` on the bytes of the file
     `xlsfile <hex file>`                       → `<tag>`                 `xlsOpen` on the bytes of the file
+    `xlsfilecp <0|1> <hex file>`               → `<tag>`                 `xlsOpenWith` (forced code page known: 1 / unknown: 0)
     `xls <hex workbook stream> <recs>`         → `<tagS> <tagR>`         `xlsGlobalsStream` on the stream bytes,
                                                                          `xlsGlobals` on the record list
           recs: `,`-separated `<typ>:<hex payload>` (`-` = empty payload); `_` = no record
@@ -70,6 +71,10 @@ def handle (line : String) : String :=
   | ["xlsfile", hex] =>
     match Wire.bytesOfHex hex with
     | some file => tg (xlsOpen Arms.quiet file)
+    | none => "bad-op"
+  | ["xlsfilecp", ok, hex] =>
+    match Wire.bytesOfHex hex with
+    | some file => tg (xlsOpenWith (ok = "1") Arms.quiet file)
     | none => "bad-op"
   | ["xls", hex, recs] =>
     match Wire.bytesOfHex hex, parseRecs recs with
